@@ -92,7 +92,8 @@ Print Assumptions C05_force_fields.
 (* merge_strategy='merge', over a whole import (any inputs, id_spec, force_merge_fields, from empty
    tables): at every point at most ONE of the candidates for a key agrees with a newcomer on the compared
    columns - the candidates are pairwise different there - so the arbitrary order in which Python's
-   set() presents them cannot influence the result *)
+   set() presents them cannot influence the result.  (Only for such merge-only imports: in a history that mixes
+   strategies two stored candidates can agree with a newcomer, and then which of them is updated follows the set order.) *)
 Theorem C05_merge_candidates_distinct : forall call force spec fs st' key f,
   run_steps (step_gff call SMerge force spec) fs empty_st = Ok st' ->
   (length (filter (same_checked force f) (candidates st' key)) <= 1)%nat.
